@@ -190,7 +190,9 @@ func (d *Data) putChunk(op *putOperation, wg *sync.WaitGroup, putbuffer storage.
 		dvid.Errorf("error creating compressed block from label array at %s", op.subvol)
 		return
 	}
-	go d.updateBlockMaxLabel(op.version, curBlock)
+	// synchronous: the request must not be acknowledged before its labels count towards the maximum
+	// (a nextlabel/cleave/split issued right after the acknowledgement could otherwise reuse them).
+	d.updateBlockMaxLabel(op.version, curBlock)
 
 	blockData, _ := curBlock.MarshalBinary()
 	serialization, err := dvid.SerializeData(blockData, d.Compression(), d.Checksum())
@@ -344,7 +346,7 @@ func (d *Data) writeBlocks(v dvid.VersionID, b storage.TKeyValues, wg1, wg2 *syn
 				dvid.Errorf("unable to compute dvid block compression in %q: %v\n", d.DataName(), err)
 				return
 			}
-			go d.updateBlockMaxLabel(v, lblBlock)
+			d.updateBlockMaxLabel(v, lblBlock)
 
 			compressed, _ := lblBlock.MarshalBinary()
 			serialization, err := dvid.SerializeData(compressed, d.Compression(), d.Checksum())
@@ -464,7 +466,7 @@ func (d *Data) storeBlocks(ctx *datastore.VersionedCtx, r io.ReadCloser, scale u
 			if indexing {
 				d.handleBlockIndexing(ctx.VersionID(), blockCh, ingestBlock)
 			}
-			go d.updateBlockMaxLabel(ctx.VersionID(), ingestBlock.Data)
+			d.updateBlockMaxLabel(ctx.VersionID(), ingestBlock.Data)
 			evt := datastore.SyncEvent{d.DataUUID(), event}
 			msg := datastore.SyncMessage{event, ctx.VersionID(), ingestBlock}
 			if err := datastore.NotifySubscribers(evt, msg); err != nil {
@@ -503,7 +505,7 @@ func (d *Data) storeBlocks(ctx *datastore.VersionedCtx, r io.ReadCloser, scale u
 			if mod := d.blockChangesExtents(&extents, bx, by, bz); mod {
 				extentsChanged = true
 			}
-			go d.updateBlockMaxLabel(ctx.VersionID(), block)
+			d.updateBlockMaxLabel(ctx.VersionID(), block)
 		}
 		serialization, err := dvid.SerializePrecompressedData(compressed, d.Compression(), d.Checksum())
 		if err != nil {
